@@ -1,14 +1,10 @@
 import Afkak.ClientNet
 import Afkak.Monitor.C11
-/-! Open statements of C11 (full strength, not yet proved). -/
+/-! Open statements of C11 (full strength, not yet proved).
+
+None at present: `C11_model_traces_satisfy_monitor` is proved (`AfkakProps/C11.lean`) in its truthful form -
+with non-negative timeouts and for runs in which no step exhausts the interpreter's fuel (the statement
+without the fuel hypothesis is false of the fuel-bounded interpreter: a callback chain longer than
+`fuel` actions ends a step early with disconnects still owed). -/
 namespace Afkak.Props.C11.Open
-open Afkak.ClientNet Afkak.ClientCache
-
-/-- Every trace of the client model satisfies the C11 monitor that is evaluated on the real client's
-    traces (bound armed at issue, timers exactly for the unresolved requests after every step, nothing
-    overdue, late replies inert, disconnect on timeout), for every event sequence with a non-negative
-    timeout. -/
-def C11_model_traces_satisfy_monitor : Prop :=
-  ∀ (cfg : Cfg), 0 ≤ cfg.timeout → ∀ (evs : List (Env × Ev)), Afkak.Monitor.C11.ok cfg (traceOf cfg {} evs) = true
-
 end Afkak.Props.C11.Open
